@@ -43,7 +43,7 @@ func (x *Exec) typeSpecOf(t types.Type) (*TypeSpec, types.Type) {
 }
 
 // typeInvTerms evaluates inv clauses of the type of v (a pointer) with self := v.
-func (x *Exec) typeInvTerms(st *State, v Val, t types.Type, pkg *types.Package) ([]Term, []*Clause) {
+func (x *Exec) typeInvTerms(st *State, v Val, t types.Type, pkg *types.Package, assume ...bool) ([]Term, []*Clause) {
 	ts, _ := x.typeSpecOf(t)
 	if ts == nil {
 		return nil, nil
@@ -56,6 +56,7 @@ func (x *Exec) typeInvTerms(st *State, v Val, t types.Type, pkg *types.Package) 
 		vv.Typ = t
 		env.vars["self"] = vv
 		env.old = env
+		env.assume = len(assume) > 0 && assume[0]
 		tm, err := env.EvalBool(cl.Node)
 		if err != nil {
 			x.abort("type invariant of %s: %v", ts.Name, err)
@@ -106,13 +107,13 @@ func VerifyUnit(prog *Program, specs *Specs, fn *ssa.Function, ct *Contract, opt
 			pkg = fn.Pkg.Pkg
 		}
 		for i, p := range fn.Params {
-			tms, _ := x.typeInvTerms(st, pvals[i], p.Type(), pkg)
+			tms, _ := x.typeInvTerms(st, pvals[i], p.Type(), pkg, true)
 			st.assumeAll(tms)
 		}
 		env := x.specEnv(fr, st, nil)
 		if ct != nil {
 			for _, cl := range ct.Requires {
-				t, err := env.EvalBool(cl.Node)
+				t, err := env.EvalAssume(cl.Node)
 				if err != nil {
 					x.abort("requires: %v", err)
 				}
@@ -441,7 +442,7 @@ func (x *Exec) checkLoopInv(fr *Frame, st *State, li *loopInfo, kind string) {
 func (x *Exec) assumeLoopInv(fr *Frame, st *State, li *loopInfo) {
 	env := x.loopEnv(fr, st)
 	for _, cl := range x.loopClauses(fr, li, "invariant") {
-		t, err := env.EvalBool(cl.Node)
+		t, err := env.EvalAssume(cl.Node)
 		if err != nil {
 			x.abort("loop %d invariant: %v", li.ordinal, err)
 		}
